@@ -4,7 +4,7 @@
 
   Every statement is for all hit lists (any length, equal starts, equal scores, nested and chained
   overlaps, duplicates), all profile-length tables and both modes of `refine_hmmscan_results`.
-  The model is the code with fixes D11, D22, D25, D26, D27 applied (see design/C13.md).
+  The model is the code with fixes D11, D22, D25, D26, D32 applied (see design/C13.md).
 -/
 import ASV.Proofs.RefineCover
 import ASV.Proofs.RefineIncomplete
@@ -389,7 +389,7 @@ example : removeIncomplete exEnv [⟨0, 0, 34, 1, 10⟩, ⟨1, 60, 100, 1, 10⟩
     [⟨1, 60, 100, 1, 10⟩] := by decide
 example : removeIncomplete exEnv [⟨0, 0, 33, 1, 10⟩, ⟨2, 60, 61, 1, 10⟩] = [⟨2, 60, 61, 1, 10⟩] := by decide
 example : removeIncomplete exEnv [⟨0, 0, 33, 1, 10⟩] = [] := by decide
-/-- far-apart domains of one profile are both kept (D27) and a nested fragment does not shorten
+/-- far-apart domains of one profile are both kept (D32) and a nested fragment does not shorten
     the merge (D22) -/
 example : mergeDomainList exEnv [⟨0, 0, 90, 1, 10⟩, ⟨0, 300, 390, 1, 10⟩] =
     [⟨0, 0, 90, 1, 10⟩, ⟨0, 300, 390, 1, 10⟩] := by decide
